@@ -198,7 +198,7 @@ def run(ck):
         c03.rule_V(ck, lib)
 
 
-def rule_R(ck, lib):
+def rule_R(ck, lib, rid="C11-R"):
     """C11-R: the grammar - where white space is allowed, what separates units - is the parser's. `run` looks at the bytes
     of its input only through `parse` (and its emptiness), except to find the terminator after `parse` has failed; a test
     on the raw bytes in front of `parse` (skip a leading ';', a fast path for a known header) sees the input before white
@@ -214,7 +214,8 @@ def rule_R(ck, lib):
         t = S(t)
         while isinstance(t, tuple) and t and t[0] == "call" and t[1].split("::")[-1] in ("iter", "as_ref", "as_slice", "borrow") and len(t[2]) == 1:
             t = t[2][0]
-        return isinstance(t, tuple) and len(t) > 1 and ((t[0] in ("loopvar", "local") and t[1] in inp_ids) or t == S(rs.input_arg))
+        # the input itself, or what parse left of it (the remainder behind the unit)
+        return isinstance(t, tuple) and len(t) > 1 and ((t[0] in ("loopvar", "local") and t[1] in inp_ids) or t == S(rs.input_arg) or (rs.rem is not None and t == S(rs.rem)))
     bad = {}
     n = 0
     for x in rs.exits:
@@ -233,6 +234,6 @@ def rule_R(ck, lib):
                     bad[(nm, str(e[3]) if len(e) > 3 else "")] = e
             if e[0] == "index" and is_input(e[1]) and e[2][0] == "lit":
                 bad[("index by constant", str(e[3]) if len(e) > 3 else "")] = e
-    ck.judge(not bad, "C11-R", "run:input-only-through-parse", "run examines its input through parse only (and, after a failed parse, to find the terminator)",
+    ck.judge(not bad, rid, "run:input-only-through-parse", "run examines its input through parse only (and, after a failed parse, to find the terminator)",
              "run looks at the raw bytes of its input outside parse: %s" % sorted(k[0] for k in bad), loc=(sorted(bad)[0][1] if bad else None))
-    ck.floor("C11-R", "parse calls on the paths of run", n, 4)
+    ck.floor(rid, "parse calls on the paths of run", n, 4)
